@@ -57,6 +57,110 @@ def edge_task(task):
     return n, per_op, out
 
 
+EXPR_OPS = ("V34", "V35", "V36", "V37", "V38", "V39", "V40", "V44", "V45", "V46", "V47", "V78", "V79", "V80", "V01", "V03",
+            "V05", "V83")
+
+
+def expr_lines(tier, seed):
+    """Statement lines holding every atom of the expression grammar (and a slice of the binary
+    expressions) in four contexts, as piece lines inside a fixed function."""
+    from . import c01_expr as ce
+    from ..model.norm import Line, P
+    head = [Line([P("raw", t)], "raw") for t in ce.FUNC_HEAD.rstrip("\n").split("\n")]
+    tail = [Line([P("raw", t)], "raw") for t in ce.FUNC_TAIL.rstrip("\n").split("\n")]
+    ctxs = ("assign", "if", "return", "arg1")
+    out = []
+    for lab, e, _ in ce.i_atoms():
+        for ctx in ctxs:
+            if ce._allowed(ctx, lab):
+                out.append((f"atom:{lab}@{ctx}", head, ce.stmt_lines(ctx, e), tail))
+    for lab, e in ce.p_atoms():
+        for ctx in ("if", "arg1"):
+            out.append((f"patom:{lab}@{ctx}", head, ce.stmt_lines(ctx, e), tail))
+        out.append((f"patom:{lab}@assign", head, [norm.stmt_line(1, norm.assign(norm.V("p"), "=", e), "simple")], tail))
+    ia = ce.i_atoms()
+    k = seed
+    for (la, a, _), (lb, b_, _) in zip(ia, ia[7:] + ia[:7]):
+        for op in ce.BINOPS[k % 3::3]:
+            ctx = ctxs[k % len(ctxs)]
+            k += 1
+            if ce._allowed(ctx, la, lb):
+                out.append((f"bin:{la}{op}{lb}@{ctx}", head, ce.stmt_lines(ctx, norm.binop(a, op, b_)), tail))
+    return out
+
+
+def edit_context(old, new):
+    """Kinds of the non-blank tokens just before and just after the first character where the edited line
+    differs from the original (input-side context of the edit, used in signatures)."""
+    k = next((i for i, (a, b) in enumerate(zip(old, new)) if a != b), min(len(old), len(new)))
+    toks, _, exc = impl.lex(new)
+    if toks is None:
+        return "?", "?"
+    # visual columns are irrelevant here: work on character offsets through the aligner spans
+    from ..model import lexref
+    al = lexref.align(new, toks, set())
+    if not al.get("ok"):
+        return "?", "?"
+    prev, nxt = "BOL", "EOL"
+    for t, (a, b) in zip(toks, al["spans"]):
+        if t.type in ("SPACE", "TAB", "NEWLINE"):
+            continue
+        if a < k:
+            prev = t.type
+        elif nxt == "EOL":
+            nxt = t.type
+    return _tclass(prev), _tclass(nxt)
+
+
+_BINOPS = {"PLUS", "MINUS", "MULT", "DIV", "MODULO", "LESS_THAN", "MORE_THAN", "LESS_OR_EQUAL", "GREATER_OR_EQUAL", "EQUALS",
+           "NOT_EQUAL", "AND", "OR", "BWISE_AND", "BWISE_OR", "BWISE_XOR", "LEFT_SHIFT", "RIGHT_SHIFT"}
+_TYPES = {"INT", "CHAR", "LONG", "SHORT", "UNSIGNED", "SIGNED", "FLOAT", "DOUBLE", "VOID", "CONST", "STRUCT"}
+
+
+def _tclass(t):
+    """Token-kind classes used in C02 expression-site signatures (one class per whitelist of the spacing rules)."""
+    if t in ("PLUS", "MINUS"):
+        return "plusminus"
+    if t in _BINOPS:
+        return "binop"
+    if t in ("NOT", "BWISE_NOT"):
+        return "unary"
+    if t in _TYPES:
+        return "type"
+    if t in ("CHAR_CONST", "STRING", "NULL"):
+        return "literal"
+    if t.endswith("_ASSIGN") or t == "ASSIGN":
+        return "assign"
+    return t.lower()
+
+
+def expr_task(task):
+    label, head, mid, tail = task
+    lines = head + mid + tail
+    lo, hi = len(head), len(head) + len(mid)
+    fname = "test.c"
+    npre = len(norm.preamble(".c", fname))
+    out = []
+    n = 0
+    base_body = norm.render(lines)
+    base = impl.run_text(fname, norm.render(norm.preamble(".c", fname)) + base_body)
+    if base.exc is not None or any(d[0] == "Error" for d in base.diags):
+        return 0, []          # the unedited statement is C01's business
+    for vid in EXPR_OPS:
+        code, fn, ftypes = catalogue.OPS[vid]
+        for new_lines, exp_idx, site in fn(lines, lo, hi):
+            exp = exp_idx if isinstance(exp_idx, tuple) else (exp_idx,)
+            n += 1
+            prob, r = judge_variant(".c", fname, norm.render(new_lines), code, tuple(npre + e + 1 for e in exp))
+            if prob and vid == "V35" and "/*" in new_lines[exp[0]].text() and "/*" not in lines[exp[0]].text():
+                continue        # removing the blank after '/' in front of '*p' opens a comment: not this operator's edit
+            if prob:
+                ctx = edit_context(lines[exp[0]].text(), new_lines[exp[0]].text())
+                out.append((vid, code, f"{ctx[0]}>{ctx[1]}", prob, new_lines[exp[0]].text(), [d for d in r.diags if d[0] == "Error"][:4],
+                            norm.render(new_lines)))
+    return n, out
+
+
 def run(tier, seed):
     st = explore.Stats()
     failures = []
@@ -105,6 +209,19 @@ def run(tier, seed):
                 "C02", f"{vid}:{code}:{prob}:site={site}:block={blk}",
                 f"{vid} ({code}) at {site} after {ids[-2:]}: {prob}; edited line {line!r}; errors {diags[:3]}",
                 {"ftype": t[0], "ids": list(ids), "tier": tier, "vid": vid, "site": site, "exp_line": list(exp_line)}))
+    # operators on the statements of the expression enumeration (every atom kind in four contexts)
+    etasks = expr_lines(tier, seed)
+    eres = explore.pmap(expr_task, etasks, chunksize=2)
+    ne = 0
+    for t, (n, out) in zip(etasks, eres):
+        ne += n
+        for (vid, code, site, prob, line, diags, body) in out:
+            failures.append(Failure("C02", f"{vid}:{code}:{prob}:expr:{site}",
+                                    f"{vid} ({code}) in {t[0]}: {prob}; edited line {line!r}; errors {diags[:3]}",
+                                    {"kind": "expr", "vid": vid, "body": body, "code": code, "line": line}))
+    st.runs += ne
+    st.transitions += ne
+    st.bump("expression_site_runs", ne)
     for vid in catalogue.OPS:
         st.bump("sites:" + vid, per_op.get(vid, 0))
     zero = [vid for vid in catalogue.OPS if per_op.get(vid, 0) == 0]
@@ -160,6 +277,11 @@ def run(tier, seed):
 
 
 def replay(payload):
+    if payload.get("kind") == "expr":
+        lines = payload["body"].split("\n")
+        exp = tuple(len(norm.preamble(".c", "test.c")) + i + 1 for i, l in enumerate(lines) if l == payload["line"])
+        prob, r = judge_variant(".c", "test.c", payload["body"], payload["code"], exp)
+        return [Failure("C02", f"{payload['vid']}:{prob}", str(r.diags[:4]), payload)] if prob else []
     if payload.get("kind") == "cli":
         o = progrun.cli_text((payload["fname"], payload["text"], ["--no-colors"]))
         if not (o["code"] not in (0, None) and o["stdout"].startswith(payload["fname"] + ": Error!")):
